@@ -77,7 +77,10 @@ fn rotate(r: &mut Rng, cur: &RootKeys, history: &[RootKeys]) -> (RootKeys, Strin
                 label = format!("{}:threshold-change", ROLE_NAMES[which]);
             } else {
                 let k = *r.pick(&spare);
-                role.keys.push(k);
+                // (never list one key twice: a role [k, k] with threshold 2 cannot be met by anyone)
+                if !role.keys.contains(&k) {
+                    role.keys.push(k);
+                }
                 label = format!("{}:add-key", ROLE_NAMES[which]);
             }
         }
@@ -146,7 +149,7 @@ fn gen_cases(cfg: &Cfg) -> Vec<Case> {
         }
     }
     // all three-cycle histories (thorough)
-    if cfg.tier == Tier::Thorough {
+    if cfg.tier == Tier::Thorough && std::env::var("C03_SKIP_EXHAUSTIVE3").is_err() {
         for a in 0..81 {
             for b in 0..81 {
                 for c in 0..81 {
@@ -399,6 +402,10 @@ fn run_case(w: &mut Worker, c: &Case) -> CaseOut {
             "cycle" => k,
             "roots_published_before" => J::A(cyc.publish.iter().map(|p| J::S(p.1.clone())).collect()),
             "newest_root" => published_at[k],
+            "online_roles_of_newest_root(keys/threshold: timestamp, snapshot, targets)" => {
+                let c = &ep.cfgs[(published_at[k] - 1) as usize];
+                format!("{:?}/{} {:?}/{} {:?}/{}", c.timestamp.keys, c.timestamp.threshold, c.snapshot.keys, c.snapshot.threshold, c.targets.keys, c.targets.threshold)
+            },
             "served(ts,snap,listed,targets)" => cyc.served.tuple(),
             "extra_member_bytes(ts,snap,targets)" => format!("{:?}", cyc.served.pad),
             "observed" => o.to_j(),
